@@ -145,6 +145,12 @@ func (c *Content) WithFileInfoDefaults(umask fs.FileMode, mtime time.Time) *Cont
 		cc.FileInfo.Mode != 0 &&
 		(cc.FileInfo.Size != 0 || (cc.Type == TypeDir || cc.Type == TypeImplicitDir)))
 
+	if cc.Type == TypeSymlink {
+		// the source of a symlink is its target, a path inside the package: whatever
+		// happens to be at that path on the build host says nothing about the entry
+		fileInfoAlreadyComplete = true
+	}
+
 	// only stat source when we actually need more information
 	if cc.Source != "" && !fileInfoAlreadyComplete {
 		info, err := os.Stat(cc.Source)
